@@ -335,17 +335,21 @@ CHECKS["C08"] = dict(
 )
 
 CHECKS["C13"] = dict(
-    stages=[stage("C13", quick=dict(cases=14400, size=100, shards=16), thorough=dict(cases=300000, size=100, shards=16), case_timeout=900)],
+    stages=[stage("C13", quick=dict(cases=14400, size=100, shards=16), thorough=dict(cases=200000, size=100, shards=16), case_timeout=900)],
     technique="rapidcheck property-based testing: generated node sets routed by libavoid, laid out by ConstrainedFDLayout + ColaTopologyAddon and "
               "stopped after a generated number of iterations; independent segment/rectangle and corner predicates on the result",
     level_text="Generated sets of 2-12 (thorough 20) non-overlapping node rectangles (gap 5/10/20, on and off a 10-lattice), random simple edges, "
                "initial routes from libavoid polyline routing centre to centre (tight around corners), then topology-preserving force-directed "
-               "layout with overlap avoidance, stopped after 1-30 iterations or run to convergence.  In the state it stops in: no segment of "
+               "layout with overlap avoidance, stopped after 1-30 iterations or run to convergence.  Two further families drive the 'desired moves' of the property: "
+               "C13.locked locks every node of a lattice scene (cola::Lock through a PreIteration) and drags up to half of them by lattice offsets in x, y or "
+               "both for 1-8 iterations; C13.slide builds two nodes whose facing sides lie on exactly the same line, an edge running between them, 0-4 "
+               "bystanders, and drags the two past each other (all eight lattice symmetries), so that scan-order ties and two bends on one line "
+               "occur within one pass.  In the state it stops in: no segment of "
                "an edge path passes through the interior (shrunk by 1e-6) of a node other than its end nodes, no two nodes overlap (1e-3), every "
                "path still runs between its original end nodes, every bend lies on a corner of its node and turns around that node.",
     level_note="'During layout' is sampled by stopping after a generated iteration count, not by observing every internal step.  The side-"
                "signature clause is covered only through these local conditions (a global signature is not invariant when end nodes move).",
-    rule="rapidcheck-generated scenes; non-trivial = at least one initial route has a bend and at least one node moved by more than its own size; distinct by FNV-1a of the case text",
+    rule="rapidcheck-generated scenes; non-trivial = at least one route has a bend (initially or after layout) and at least one node moved by more than its own size; distinct by FNV-1a of the case text",
     min_nontrivial=dict(quick=600, thorough=5000),
     max_aborted_frac=0.008,
     assumptions=["initial routes come from libavoid (UseLeesAlgorithm, no invisibility graph), as in libtopology/tests/beautify.cpp"],
